@@ -895,6 +895,12 @@ class LibsModel:
         if name in ('append', 'add'):
             v = args[0] if args else TOP
             interp.emit('append', node, container=recv, value=v)
+            if name == 'append' and recv.ty == 'list' and recv.elts is not None and recv.elem is None and len(recv.elts) < 8 \
+                    and not getattr(interp, 'fix_loops', 0) and not recv.maybe_empty and target is not None:
+                # straight-line code (or an unrolled loop over a short known sequence): the list keeps its known elements
+                self.rebind(interp, st, frame, target, recv.w(elts=list(recv.elts) + [v], deps=(recv.deps or frozenset()) | (v.deps or frozenset()),
+                                                                const=None, litconst=None, appended=True, empty_init=None))
+                return const(None)
             new = recv.w(elem=join(recv.elem, v) if (recv.elem is not None or recv.elts) else v, elts=None,
                          deps=(recv.deps or frozenset()) | (v.deps or frozenset()), maybe_empty=None, const=None,
                          appended=True, empty_init=None)
